@@ -446,7 +446,7 @@ func (e *Engine) unop(st *State, ins *ssa.UnOp) Value {
 	case token.SUB:
 		x := e.term(st, ins.X)
 		if isFloat(ins.Type()) {
-			return app(SF64, "fp.neg", x)
+			return app(SF64, "f64.neg", x)
 		}
 		return e.wrap(ins.Type(), Neg(x))
 	case token.ARROW:
@@ -471,9 +471,6 @@ func (e *Engine) wrap(t types.Type, x Term) Term {
 	return T("("+wrapFn(t)+" "+x.S+")", SInt)
 }
 
-func rne(op string, a, b Term) Term {
-	return T("("+op+" RNE "+a.S+" "+b.S+")", SF64)
-}
 
 func (e *Engine) binop(st *State, op token.Token, xv, yv Value, xt types.Type, rt types.Type, pos token.Pos) Value {
 	// comparisons on structured values
@@ -494,21 +491,21 @@ func (e *Engine) binop(st *State, op token.Token, xv, yv Value, xt types.Type, r
 	case isFloat(xt):
 		switch op {
 		case token.ADD:
-			return rne("fp.add", x, y)
+			return app(SF64, "f64.add", x, y)
 		case token.SUB:
-			return rne("fp.sub", x, y)
+			return app(SF64, "f64.sub", x, y)
 		case token.MUL:
-			return rne("fp.mul", x, y)
+			return app(SF64, "f64.mul", x, y)
 		case token.QUO:
-			return rne("fp.div", x, y)
+			return app(SF64, "f64.div", x, y)
 		case token.LSS:
-			return app(SBool, "fp.lt", x, y)
+			return app(SBool, "f64.lt", x, y)
 		case token.LEQ:
-			return app(SBool, "fp.leq", x, y)
+			return app(SBool, "f64.leq", x, y)
 		case token.GTR:
-			return app(SBool, "fp.gt", x, y)
+			return app(SBool, "f64.gt", x, y)
 		case token.GEQ:
-			return app(SBool, "fp.geq", x, y)
+			return app(SBool, "f64.geq", x, y)
 		}
 	case isString(xt):
 		switch op {
@@ -599,7 +596,7 @@ func (e *Engine) valuesEqual(st *State, xv, yv Value, t types.Type) Term {
 	case Term:
 		y := yv.(Term)
 		if x.Sort.K == KF64 {
-			return app(SBool, "fp.eq", x, y)
+			return app(SBool, "f64.eq", x, y)
 		}
 		return Eq(x, y)
 	case PtrV:
@@ -666,7 +663,7 @@ func arrRootT(elem types.Type) types.Type { return types.NewSlice(elem) }
 
 func (e *Engine) elemPtr(s SliceV, i Term) PtrV {
 	return PtrV{Ref: s.Arr, RootT: arrRootT(s.Elem), Elem: s.Elem,
-		Path: []Step{{Field: -1, Index: Add(s.Off, i), T: s.Elem}}}
+		Path: []Step{{Field: -1, Index: IX(s.Off, i), T: s.Elem}}}
 }
 
 func (e *Engine) indexAddr(st *State, ins *ssa.IndexAddr) Value {
@@ -904,7 +901,7 @@ func (e *Engine) convert(st *State, ins *ssa.Convert) Value {
 		return e.wrap(to, v.(Term))
 	case isInteger(from) && isFloat(to):
 		x := v.(Term)
-		return T("((_ to_fp 11 53) RNE (to_real "+x.S+"))", SF64)
+		return T("(i2f "+x.S+")", SF64)
 	case isFloat(from) && isFloat(to):
 		return v
 	case isFloat(from) && isInteger(to):
@@ -983,6 +980,10 @@ func (e *Engine) strToBytes(st *State, s Term, elem types.Type) Value {
 	e.noteHeapKey(key, so)
 	a := st.heapArr(key, so)
 	f := e.ctx.Func("str2bytes", []*Sort{SStr}, ArrSort(SInt, SInt))
+	b2s := e.ctx.Func("bytes2str", []*Sort{ArrSort(SInt, SInt), SInt, SInt}, SStr)
+	x := T("s!q", SStr)
+	e.ctx.Axiom("str2bytes:inverse", []string{"str2bytes"},
+		Forall([]Term{x}, Eq(T("("+b2s+" ("+f+" s!q) 0 (slen s!q))", SStr), x)))
 	st.setHeapArr(key, Store(a, arr, T("("+f+" "+s.S+")", ArrSort(SInt, SInt))))
 	return SliceV{Arr: arr, Off: IntLit(0), Len: slen(s), Cap: slen(s), Elem: elem}
 }
